@@ -158,8 +158,8 @@ class HarnessTimeout(BaseException):
 
 # =========================================================================== shards
 def shards(tier, seed):
-    n_random = {"quick": 70, "thorough": 4000}[tier]
-    n_sliced = {"quick": 25, "thorough": 900}[tier]
+    n_random = {"quick": 160, "thorough": 4000}[tier]
+    n_sliced = {"quick": 50, "thorough": 900}[tier]
     return [{"seed": subseed(seed, PID, i), "n_random": n_random, "n_sliced": n_sliced, "n_shards": N_SHARDS,
              "budget_s": {"quick": 300, "thorough": 2000}[tier]} for i in range(N_SHARDS)]
 
